@@ -220,6 +220,13 @@ def matrix_digest(mobj):
                 h.update(("labels-raise:" + type(e).__name__).encode())
             if hasattr(t, "groups"):
                 h.update(repr(t.groups).encode())
+            # what downstream code reads from the terms of a design: kind and the (training) data block
+            h.update(repr(getattr(t, "kind", None)).encode())
+            d = getattr(t, "data", None)
+            if isinstance(d, np.ndarray):
+                arr_digest(h, d)
+            else:
+                h.update(("data:" + type(d).__name__).encode())
     if hasattr(mobj, "factors_with_new_levels"):
         h.update(repr(mobj.factors_with_new_levels).encode())
     if hasattr(mobj, "levels"):
